@@ -27,6 +27,7 @@ RULE = (
     "boundary values (L0 in {2^31-1, 2^31, 2^32-1}, L1/L2 in {31,32,255,2^31,2^32-1}, length fields 0/1/2/2^32-1, malformed DH / ECDH key_info, SID "
     "strings out of range); random bytes and random DER trees. distinct = digest of the input; non-trivial = the input gets past ContentInfo parsing "
     "(the deepest dpapi_ng module reached is recorded)"
+    " Also: session-* shards (one cache across hundreds of L0 values with malformed blobs in between); SID-like strings from a numeral-notation grammar inside consistently re-encoded blobs."
 )
 ASSUMPTIONS = [
     "budgets are linear with >= 10x slack over the calibrated valid-call cost (valid 400-byte blob = ~3600 line events, <= 66 KDF invocations)",
